@@ -8,6 +8,8 @@ use alloy_evm::{EthEvm, Evm, precompiles::PrecompilesMap};
 use grevm::{GrevmConfig, DelegatedSafetyConfig, ParallelState, ParallelTakeBundle, Scheduler, TxExecutionOutcome};
 use revm::{Context, DatabaseCommit, DatabaseRef, MainBuilder, MainContext, handler::EthPrecompiles};
 use revm_context::{
+    either::Either,
+    transaction::{Authorization, RecoveredAuthority, RecoveredAuthorization},
     BlockEnv, CfgEnv, TxEnv,
     result::{EVMError, ExecutionResult},
 };
@@ -323,6 +325,9 @@ pub struct GenOpts {
     pub multi: bool,
     /// the fee recipient is an existing empty account in half of the blocks
     pub empty_ben: bool,
+    /// Prague block with sponsored EIP-7702 authorisations (set / re-point / clear) and calls to
+    /// the (possibly delegated) EOAs
+    pub auth: bool,
 }
 
 /// A conflict-heavy block: few slots, data-dependent slot choice, shared callers (nonce chains).
@@ -336,6 +341,7 @@ pub fn gen_block(rng: &mut Rng, n_txs: usize, opts: GenOpts) -> (World, BlockSpe
     }
     let specs = [SpecId::SHANGHAI, SpecId::CANCUN, SpecId::PRAGUE, SpecId::LONDON, SpecId::BERLIN];
     let spec = if rng.chance(2, 3) { SpecId::CANCUN } else { *rng.pick(&specs) };
+    let spec = if opts.auth { SpecId::PRAGUE } else { spec };
     let basefee = if spec >= SpecId::LONDON { rng.below(3) } else { 0 };
     let beneficiary = if opts.empty_ben && rng.chance(1, 2) {
         // existing empty fee recipient: a zero reward still touches (and so deletes) it
@@ -359,7 +365,44 @@ pub fn gen_block(rng: &mut Rng, n_txs: usize, opts: GenOpts) -> (World, BlockSpe
         let mut tx = TxEnv { caller, gas_limit: 300_000, gas_price, nonce, ..Default::default() };
         let kind = if opts.cb && rng.chance(1, 3) { 70 } else if opts.chain && rng.chance(5, 6) { 0 } else { rng.below(100) };
         let mut valid = true;
-        if kind < 45 {
+        if opts.auth && rng.chance(1, 4) {
+            // EIP-7702: a sponsored authorisation that points an EOA (another sender) at the `mix`
+            // contract, at the forwarder, or clears it, then calls that EOA with `mix` calldata: the
+            // EOA runs `mix` on its own storage. A third of the tuples carry a stale nonce (ignored).
+            let ai = rng.below(n_eoa as u64) as usize;
+            let authority = eoa(ai);
+            let target = match rng.below(4) { 0 => Address::ZERO, 1 => world.forward, _ => world.mix };
+            let cur = *nonces.get(&authority).unwrap_or(&0);
+            let ok = authority != caller && rng.chance(2, 3);
+            let auth_nonce = if ok { cur } else { cur + 1 + rng.below(2) };
+            if ok {
+                nonces.insert(authority, cur + 1);
+            }
+            let (a, b, ind) = (rng.below(4), rng.below(4), rng.chance(1, 3) as u64);
+            let mut data = Vec::new();
+            data.extend_from_slice(&word(a));
+            data.extend_from_slice(&word(b));
+            data.extend_from_slice(&word(ind));
+            tx.tx_type = 4;
+            tx.kind = TxKind::Call(authority);
+            tx.data = Bytes::from(data);
+            tx.authorization_list = vec![Either::Right(RecoveredAuthorization::new_unchecked(
+                Authorization { chain_id: U256::from(1), address: target, nonce: auth_nonce },
+                RecoveredAuthority::Valid(authority),
+            ))];
+            descr.push(format!("auth {authority:x}->{target:x}#{auth_nonce}{} call a={a} b={b} ind={ind}", if ok { "" } else { "!" }));
+        } else if opts.auth && rng.chance(1, 5) {
+            // call an EOA that may carry a delegation by now
+            let ai = rng.below(n_eoa as u64) as usize;
+            let (a, b, ind) = (rng.below(4), rng.below(4), rng.chance(1, 3) as u64);
+            let mut data = Vec::new();
+            data.extend_from_slice(&word(a));
+            data.extend_from_slice(&word(b));
+            data.extend_from_slice(&word(ind));
+            tx.kind = TxKind::Call(eoa(ai));
+            tx.data = Bytes::from(data);
+            descr.push(format!("call-eoa {:x} a={a} b={b} ind={ind}", eoa(ai)));
+        } else if kind < 45 {
             let a = rng.below(4);
             let b = rng.below(4);
             let ind = if opts.chain { rng.chance(1, 2) as u64 } else { rng.chance(1, 3) as u64 };
